@@ -150,4 +150,18 @@ PROPS = {
         "level_text": "Exploration: hundreds of thousands of seeded operation histories plus a boundary sweep of every length 0..64 run against the real BitSeq; each step is decided by an executable list-of-booleans model. Right level because the property is a pure input/history property of a small value type: a model-based online monitor sees every wrong result at the step where it becomes observable.",
         "level_note": "Trusts the Vec<bool> model and that argument generators reach the boundaries (evidence reports max length reached and counts of rejected invalid operations). Sampled, not exhaustive.",
     },
+    "C18": {
+        "budget_s": {"quick": 120, "thorough": 1500},
+        "floor": {"quick": 5000, "thorough": 100000},
+        "rule": "all 2214 PD codes and 801 braid words shipped with yui-link (as inputs), plus seeded derived diagrams: R1 kinks of the four kinds (repeated edges), a ring laid over an edge (over-only component), split unions, connected sums, "
+                "switched crossings (mixed X/Xm data), mirror, global orientation reversal, edge relabelling, crossing permutation, and random braid words on 2..8 strands of length <= 20; "
+                "checks against own PD tools: components = strand orbits (partition), crossing signs = one of the orientations compatible with the under-strand rule (2^k choices for k over-only components), "
+                "writhe / signed numbers consistent and invariant under renumbering and reordering, negated by mirror, circles of every resolution state (all 2^n for n <= 9, 96 random above) = edge-identification count, "
+                "also after resolving one crossing first (diagram with history), Seifert circles = oriented resolution, is_knot, closure: #crossings = #letters, #components = #cycles, writhe = exponent sum, PD edge-bijective to the own geometric closure; "
+                "non-trivial = >= 2 components or kink / over-only component / split piece; distinct = hash(PD code, switched flags)",
+        "assumptions": COMMON_ASSUME + ["every generated diagram must pass the oracle's PD validator (2 ends per edge, coherent orientation, planarity by Euler characteristic); a rejected diagram is a generator fault, never a verdict"],
+        "technique": "reference-model monitor: yui-link routines on table and derived diagrams judged by own union-find / orientation-propagation / state-circle counting and an own braid closure",
+        "level_text": "Exploration: every shipped diagram plus tens of thousands of derived diagrams per run (millions of resolution states), each judged by an independent combinatorial model built from the raw PD code. Right level: input property with an exact, cheap oracle.",
+        "level_note": "Trusts the PD conventions of the Knot Atlas as encoded in the oracle (self-tested against the published trefoil data); inputs sampled.",
+    },
 }
